@@ -269,7 +269,14 @@ fn parse_suppression_set(text: &str) -> Option<HashSet<String>> {
     return None;
   }
   let (_, rules) = after.split_once(':')?;
-  let set = rules.split(',').map(|r| r.trim().to_string()).collect();
+  // a comment can have a closing delimiter after the list, e.g. `/* ast-grep-ignore: id */`
+  let closers = ["*/", "-->", "-}", "]]"];
+  let set = rules
+    .split(',')
+    .filter_map(|r| r.split_whitespace().next())
+    .map(|r| closers.iter().fold(r, |r, c| r.trim_end_matches(c)))
+    .map(|r| r.to_string())
+    .collect();
   Some(set)
 }
 
